@@ -251,6 +251,21 @@ template <class Db> void run_db(const Args& a, Counters& c, int& item) {
       jobs.push_back(j);
     }
   }
+  // ---- W3b: managers holding two zones whose 32-bit ids agree in part (low/high 16 bits, low/high byte): a cache that
+  //      compares anything less than the whole identity of a zone confuses exactly such pairs
+  if (only.empty()) {
+    std::vector<uint16_t> ma3 = arg_idx({"y2005", "y2006", "y1997"});
+    for (uint32_t mask : {0x0000FFFFu, 0xFFFF0000u, 0x000000FFu, 0xFF000000u, 0x00FFFF00u}) {
+      int found = 0;
+      for (uint16_t i = 0; i < Db::size() && found < 2; i++) for (uint16_t k = i + 1; k < Db::size() && found < 2; k++) {
+        if ((Db::id(Db::info(i)) & mask) != (Db::id(Db::info(k)) & mask)) continue;
+        Job j; j.cfg.kind = K_MANAGED; j.cfg.nslots = 2; j.kname = "managed";
+        j.cfg.zones = {Db::info(i), Db::info(k), cz[0] == Db::info(i) || cz[0] == Db::info(k) ? cz[1] : cz[0]};
+        j.depth = a.getl("mdepth", 8); j.alpha = mk_alpha(3, ma3); j.salpha = mk_salpha(3); j.sdepth = a.getl("sdepth", 3);
+        jobs.push_back(j); found++;
+      }
+    }
+  }
   for (auto& j : jobs) {
     if ((item++ % a.nshards) != a.shard) continue;
     Counters cc;
